@@ -8,6 +8,7 @@
 //  2. Format(src) (and File.Bytes() of an unedited file): same non-blank tokens, verbatim
 //     string/heredoc/comment text, idempotent, parses, same tree, same decoded values;
 //  3. edit sequences against an ordered-structure model built from the native parser only.
+
 package c20
 
 import (
@@ -541,7 +542,9 @@ func (r *runner) editCase(origin string, src []byte, ops []editOp) {
 	if len(ops) > 0 {
 		c.Distinct("edit\x00" + string(src) + "\x00" + string(mustJSON(ops)))
 	}
-	c.SampleSome(1500, func() any { return map[string]any{"origin": origin, "src": string(src), "ops": ops, "out": string(res.out)} })
+	c.SampleSome(1500, func() any {
+		return map[string]any{"origin": origin, "src": string(src), "ops": ops, "out": string(res.out)}
+	})
 	if res.symptom == "" {
 		c.Observe("edit_outputs_matching_model", 1)
 		// the output is a new valid source text: formatting it must be a no-op etc.
